@@ -81,7 +81,9 @@ class MultiplyImmediates(RewritePattern):
                 else:
                     return
             case int(), int():
-                rewriter.replace(op, rv32.LiOp(lhs * rhs, rd=rd))
+                rewriter.replace(
+                    op, rv32.LiOp(IntegerAttr(lhs * rhs, i32, truncate_bits=True), rd=rd)
+                )
             case _:
                 return
 
@@ -141,7 +143,8 @@ class AddImmediates(RewritePattern):
                     ),
                 )
             case int(), int():
-                rewriter.replace(op, rv32.LiOp(lhs + rhs, rd=rd, comment=op.comment))
+                value = IntegerAttr(lhs + rhs, i32, truncate_bits=True)
+                rewriter.replace(op, rv32.LiOp(value, rd=rd, comment=op.comment))
             case _:
                 pass
 
@@ -164,7 +167,11 @@ class AddImmediateConstant(RewritePattern):
             rewriter.replace(
                 op,
                 rv32.LiOp(
-                    rs1.value.data + op.immediate.value.data,
+                    IntegerAttr(
+                        rs1.value.data + op.immediate.value.data,
+                        i32,
+                        truncate_bits=True,
+                    ),
                     rd=rd,
                     comment=op.comment,
                 ),
@@ -201,7 +208,8 @@ class SubImmediates(RewritePattern):
                     ),
                 )
             case int(), int():
-                rewriter.replace(op, rv32.LiOp(lhs - rhs, rd=rd, comment=op.comment))
+                value = IntegerAttr(lhs - rhs, i32, truncate_bits=True)
+                rewriter.replace(op, rv32.LiOp(value, rd=rd, comment=op.comment))
             case _:
                 pass
 
